@@ -135,4 +135,86 @@ theorem preallocate_harmless (es₁ es₂ : List Ev) (k : Nat) (f : Nat) (hd : d
   · apply disciplined_insert es₁ es₂ _ f _ hd
     intro g rest h; simp only [disciplined]; exact h
 
+/-- a stream without `push_rhs_indices` whose pushes fit in the free entries is disciplined (checks only help) -/
+theorem disciplined_of_pushCount (es : List Ev) (f : Nat) (hn : noIdx es = true) (hc : pushCount es ≤ f) :
+    disciplined f es = true := by
+  induction es generalizing f with
+  | nil => rfl
+  | cons e es ih =>
+    cases e with
+    | check k => simp only [disciplined]; exact ih _ (by simpa [noIdx] using hn) (by simp only [pushCount] at hc; omega)
+    | push =>
+      simp only [pushCount] at hc
+      simp only [disciplined, Bool.and_eq_true, decide_eq_true_eq]
+      exact ⟨by omega, ih _ (by simpa [noIdx] using hn) (by omega)⟩
+    | pushIdx a b => simp [noIdx] at hn
+    | lhs => simp only [disciplined]; exact ih _ (by simpa [noIdx] using hn) (by simpa [pushCount] using hc)
+    | lhsRange n => simp only [disciplined]; exact ih _ (by simpa [noIdx] using hn) (by simpa [pushCount] using hc)
+    | preOps k => simp only [disciplined]; exact ih _ (by simpa [noIdx] using hn) (by simp only [pushCount] at hc; omega)
+    | preSt k => simp only [disciplined]; exact ih _ (by simpa [noIdx] using hn) (by simpa [pushCount] using hc)
+
+/-- a prefix whose pushes fit, followed by a stream that is disciplined on its own -/
+theorem disciplined_append (a b : List Ev) (f : Nat) (hn : noIdx a = true) (hc : pushCount a ≤ f)
+    (hb : disciplined 0 b = true) : disciplined f (a ++ b) = true := by
+  induction a generalizing f with
+  | nil => exact disciplined_mono b 0 f (Nat.zero_le _) hb
+  | cons e es ih =>
+    cases e with
+    | check k => simp only [List.cons_append, disciplined]; exact ih _ (by simpa [noIdx] using hn) (by simp only [pushCount] at hc; omega)
+    | push =>
+      simp only [pushCount] at hc
+      simp only [List.cons_append, disciplined, Bool.and_eq_true, decide_eq_true_eq]
+      exact ⟨by omega, ih _ (by simpa [noIdx] using hn) (by omega)⟩
+    | pushIdx a b => simp [noIdx] at hn
+    | lhs => simp only [List.cons_append, disciplined]; exact ih _ (by simpa [noIdx] using hn) (by simpa [pushCount] using hc)
+    | lhsRange n => simp only [List.cons_append, disciplined]; exact ih _ (by simpa [noIdx] using hn) (by simpa [pushCount] using hc)
+    | preOps k => simp only [List.cons_append, disciplined]; exact ih _ (by simpa [noIdx] using hn) (by simp only [pushCount] at hc; omega)
+    | preSt k => simp only [List.cons_append, disciplined]; exact ih _ (by simpa [noIdx] using hn) (by simpa [pushCount] using hc)
+
+theorem noIdx_append (a b : List Ev) : noIdx (a ++ b) = (noIdx a && noIdx b) := by
+  induction a with
+  | nil => simp [noIdx]
+  | cons e es ih => cases e <;> simp [noIdx, ih]
+
+theorem pushCount_append (a b : List Ev) : pushCount (a ++ b) = pushCount a + pushCount b := by
+  induction a with
+  | nil => simp [pushCount]
+  | cons e es ih => cases e <;> simp only [List.cons_append, pushCount, ih] <;> omega
+
+/-- `L` blocks with at most `c` pushes each have at most `c * L` pushes -/
+theorem flatten_bound (blocks : List (List Ev)) (c : Nat)
+    (h : ∀ b ∈ blocks, noIdx b = true ∧ pushCount b ≤ c) :
+    noIdx blocks.flatten = true ∧ pushCount blocks.flatten ≤ c * blocks.length := by
+  induction blocks with
+  | nil => simp [noIdx, pushCount]
+  | cons b bs ih =>
+    obtain ⟨h1, h2⟩ := h b (by simp)
+    obtain ⟨i1, i2⟩ := ih (fun x hx => h x (by simp [hx]))
+    simp only [List.flatten_cons, noIdx_append, pushCount_append, List.length_cons, h1, i1, Bool.and_self, true_and]
+    rw [Nat.mul_succ]; omega
+
+theorem reduceDim_ok (reserve c : Nat) (strips : List (List Ev)) (f : Nat)
+    (h : ∀ s ∈ strips, noIdx s = true ∧ pushCount s ≤ c) (hr : c * strips.length ≤ reserve) :
+    disciplined f (siteReduceDim reserve strips) = true := by
+  obtain ⟨h1, h2⟩ := flatten_bound strips c h
+  unfold siteReduceDim
+  simp only [disciplined]
+  exact disciplined_of_pushCount _ _ h1 (by omega)
+
+theorem reduceAll_ok (reserve c : Nat) (elems : List (List Ev)) (tail : List Ev) (f : Nat)
+    (h : ∀ s ∈ elems, noIdx s = true ∧ pushCount s ≤ c) (hr : c * elems.length ≤ reserve)
+    (ht : disciplined 0 tail = true) :
+    disciplined f (siteReduceAll reserve elems tail) = true := by
+  obtain ⟨h1, h2⟩ := flatten_bound elems c h
+  unfold siteReduceAll
+  simp only [disciplined]
+  exact disciplined_append _ _ _ h1 (by omega) ht
+
+theorem specialFromScalar_ok (size stored f : Nat) (h : stored ≤ size) :
+    disciplined f (Ev.check size :: (List.replicate stored (stmtEvents 1)).flatten) = true := by
+  simp only [disciplined]
+  have := disciplined_stmts 1 stored (max f size) [] (by omega)
+  simp only [List.append_nil] at this
+  rw [this]; rfl
+
 end Adept.RecBuf
